@@ -122,6 +122,12 @@ def check_one(desc, sp_tier, lib, M, viol, C):
         s2 = obj2.to_string()
         if s2 != s1:
             viol("second-serialisation-differs", "kind=%s" % tag, "%r vs %r" % (s1, s2), {"desc": desc, "step": "roundtrip"})
+        elif consume(tag, obj2, C):
+            # a message is a value: the library's own consumers (the client model for def/set, a driver for new) read it,
+            # after which it still serialises to the same bytes (the router hands ONE object to all recipients)
+            s3 = obj2.to_string()
+            if s3 != s1:
+                viol("consumed-message-serialises-differently", "kind=%s" % tag, "before %r after %r" % (s1, s3), {"desc": desc, "step": "consume"})
     for sp in G.spellings(sp_tier):
         text = G.serialise(desc, sp)
         n += 1
@@ -144,7 +150,78 @@ def check_one(desc, sp_tier, lib, M, viol, C):
                 "want %r got %r from %r" % (want, got, text),
                 {"desc": desc, "step": "foreign", "spelling": sp.key()},
             )
+    # the same message as BYTES in the encodings an XML document may declare (a peer's stream is bytes; the parser must
+    # honour the declaration / byte-order mark, the library's own output being only one of the possible encodings)
+    base_sp = G.Spelling(0, 0, '"', 0, 0, 0, 0, 0, 0)
+    body = G.serialise(desc, base_sp)
+    for enc, decl, codec in (("utf-8", '<?xml version="1.0" encoding="UTF-8"?>', "utf-8"), ("utf-8-undeclared", "", "utf-8"), ("iso-8859-1", '<?xml version="1.0" encoding="ISO-8859-1"?>', "latin-1"), ("utf-16", '<?xml version="1.0" encoding="UTF-16"?>', "utf-16"), ("windows-1252", "<?xml version='1.0' encoding='windows-1252'?>", "cp1252")):
+        data = (decl + body).encode(codec, "xmlcharrefreplace")
+        n += 1
+        C["byte_encodings"] = C.get("byte_encodings", 0) + 1
+        try:
+            o = M.IndiMessage.from_string(data)
+        except Exception as e:
+            viol("parse-foreign-raises", "kind=%s,bytes=%s,%s" % (tag, enc, type(e).__name__), "%r: %r" % (data[:200], e), {"desc": desc, "step": "bytes", "enc": enc})
+            continue
+        got = X.view_of_msg(o)
+        if got != want:
+            viol("foreign-differs", "kind=%s,bytes=%s,%s" % (tag, enc, diff_where(want, got)), "want %r got %r from %r" % (want, got, data[:200]), {"desc": desc, "step": "bytes", "enc": enc})
     return n
+
+
+def consume(tag, msg, C):
+    """hand the parsed message to the library's consumers; returns True if one of them took it (exceptions and refusals
+    are not this property's business)"""
+    import indi.message as M
+
+    kind = next((k for k in ("Text", "Number", "Switch", "Light", "BLOB") if tag.endswith(k + "Vector")), None)
+    if kind is None or not getattr(msg, "children", None):
+        return False
+    names = [c.name for c in msg.children]
+    try:
+        if tag.startswith("set") or tag.startswith("def"):
+            from indi.client.client import BaseClient
+            from indi.message import def_parts
+
+            class _Quiet(BaseClient):
+                def send_message(self, msg):
+                    pass
+
+            cl = _Quiet()
+            if tag.startswith("set"):
+                part = getattr(def_parts, "Def" + kind)
+                kw = dict(format="%f", min="0", max="0", step="0") if kind == "Number" else {}
+                val = {"Switch": "Off", "Light": "Idle", "Number": "0"}.get(kind)
+                ch = [part(name=n, value=val, **kw) for n in dict.fromkeys(names)]
+                dkw = dict(device=msg.device, name=msg.name, state="Ok", children=ch)
+                if kind != "Light":
+                    dkw["perm"] = "rw"
+                if kind == "Switch":
+                    dkw["rule"] = "AnyOfMany"
+                cl.process_message(getattr(M, "Def%sVector" % kind)(**dkw))
+            cl.process_message(msg)
+            C["consumed_by_client"] = C.get("consumed_by_client", 0) + 1
+            return True
+        if tag.startswith("new"):
+            from indi.routing import Router
+
+            from mc.gen import drivers as D
+
+            els = [dict(attr="e%d" % i, name=n) for i, n in enumerate(dict.fromkeys(names))]
+            if kind == "Number":
+                for e in els:
+                    e.update(format="%f", min=0, max=0, step=0, default=0.0)
+            vec = dict(attr="v", kind=kind.lower(), name=msg.name, elements=els)
+            if kind == "Switch":
+                vec["rule"] = "AnyOfMany"
+            cls, _ = D.build_class(dict(name=msg.device, groups=[dict(attr="g", name="G", vectors=[vec])]))
+            dev = cls(router=Router())
+            dev.message_from_client(msg)
+            C["consumed_by_driver"] = C.get("consumed_by_driver", 0) + 1
+            return True
+    except Exception:
+        return False
+    return False
 
 
 def diff_where(want, got):
